@@ -127,6 +127,7 @@ func init() {
 				out = append(out, Instance{Scenario: "c02_resume", Params: mustJSON(ResumeParams{Backend: b}), Bound: 0, Shards: 2})
 			}
 			out = append(out, Instance{Scenario: "c02_readonly_dcp", Params: mustJSON(struct{}{}), Bound: 0, Note: "read-only mode through the real Dcp.Start(), also for a backend handed in with SetMetadata"})
+			out = append(out, Instance{Scenario: "c02_finitecoll", Params: mustJSON(struct{}{}), Bound: 0, Note: "finite mode with a collection filter: end (and the 'latest' start) are the VBUCKET's high seqno, not the streamed collection's"})
 			out = append(out, Instance{Scenario: "c02_twogroups", Params: mustJSON(struct{}{}), Bound: 0, Note: "two consumer groups in one process on one bucket: each resumes from what is persisted for IT"})
 			out = append(out, Instance{Scenario: "c15_start", Params: mustJSON(StartParams{Reset: "latest", Mode: "infinite"}), Bound: 1, Shards: 4, Note: "autoReset=latest under single start-up faults: a session that starts has requested every vBucket without a checkpoint at its current high seqno (or the start-up terminated)"})
 			out = append(out, Instance{Scenario: "c12_ends", Params: mustJSON(EndsParams{Depth: 2}), Bound: 0, Shards: 4, Note: "the stream requests a running session issues when it re-opens a vBucket (after document / marker-only / seqno-advanced events): tracked position, the original end (unbounded in infinite mode)"})
@@ -950,6 +951,59 @@ func init() {
 				e.Cons.Disabled = true
 			}
 			vrt.SetOutcome(fmt.Sprintf("%v %d %d", names, ackA, ackB))
+		}}
+	}
+}
+
+// c02_finitecoll: finite mode with a collection filter next to a busy foreign collection: the streamed
+// collection's own high seqno (1) lies below the vBucket's (2, a foreign item). "The requested end is the
+// vBucket's high sequence number sampled at open"; with auto-reset latest and no checkpoint the start is that
+// high seqno as well; a stored checkpoint at the vBucket's high seqno (reached through a seqno-advanced event) is
+// resumed from, not rejected.
+func init() {
+	scenarios["c02_finitecoll"] = func(raw json.RawMessage) *vrt.Scenario {
+		return &vrt.Scenario{Name: "c02_finitecoll", FreeChoices: true, NoTimerAlt: true, MaxSteps: 400000, Main: func() {
+			resetGlobals()
+			reset := []string{"earliest", "latest"}[vrt.Choose(2, true, "auto-reset")]
+			stored := vrt.Choose(3, true, "checkpoint") // none | at the collection's high seqno (1) | at the vBucket's (2)
+			o := EnvOpts{Vbs: 2, CheckpointType: "manual", WrapMeta: true, Collections: []string{"c1"}, AutoReset: reset}
+			o.Mode = config.DcpModeFinite
+			c := NewCluster(&o)
+			c.Append(0, marker(1, 2), docPacket("mutation", 1, "k1", "after", 8), symbolPacket("SEQ", 2))
+			c.Append(1, marker(1, 1), docPacket("mutation", 1, "j1", "after", 8))
+			uuid0 := uint64(c.Vb[0].Failover[0].VbUUID)
+			if stored > 0 {
+				seedCheckpoint(c, srcBucket, o.Group, 0, uuid0, uint64(stored), 1, 2)
+			}
+			e := NewEnv(c, o)
+			e.Cons.AutoAck = true
+			e.Stream.Open()
+			vrt.Sleep(3e9)
+			vrt.Quiesce()
+			c.WaitIdle()
+			desc := fmt.Sprintf("finite mode, collection c1 (its high seqno 1, the vBucket's 2), autoReset=%s, checkpoint of vb0 %s", reset, []string{"none", "at 1", "at 2"}[stored])
+			var req *gocbcore.SimRequest
+			for _, r := range c.RequestsOf("openstream") {
+				if r.Vb == 0 {
+					req = r
+					break
+				}
+			}
+			if req == nil {
+				vrt.Failf("%s: vb0 was never requested", desc)
+				return
+			}
+			wantStart := uint64(stored)
+			if stored == 0 && reset == "latest" {
+				wantStart = 2
+			}
+			if req.Args[3] != 2 {
+				vrt.Failf("%s: requested end of vb0 is %d, the vBucket's high seqno sampled at open is 2", desc, req.Args[3])
+			}
+			if req.Args[2] != wantStart {
+				vrt.Failf("%s: vb0 requested from %d, want %d", desc, req.Args[2], wantStart)
+			}
+			vrt.SetOutcome(fmt.Sprintf("%s|%v", desc, req.Args))
 		}}
 	}
 }
